@@ -11,6 +11,7 @@
 
 pub mod chan;
 pub mod ctx;
+pub mod hash;
 pub mod sync;
 pub mod time;
 
